@@ -217,6 +217,14 @@ def check_from_float(ctx, r, exact):
             fr = abs((v + 0.5) - round(v + 0.5))
             if fr <= 0.125:
                 nt = True
+    # a returned box is the caller's to edit (padding it in place): the next
+    # box made from the same rectangle is a new value, not the edited one
+    box.ixmin, box.ixmax, box.iymin, box.iymax = (b[0] - 1, b[1] + 1,
+                                                  b[2] - 2, b[3] + 2)
+    again = RB.from_float(*r)
+    ctx.check(again is not box and tup(again) == b,
+              'from_float | editing a returned box changes the box made from '
+              'the same rectangle next time', f'{r}: {b} -> {tup(again)}', spec)
     return nt
 
 
